@@ -319,11 +319,16 @@ def impl_run(case):
         return [[h.hid for h in root.handlers if isinstance(h, UserHandler)], root.level]
     hooks = {
         "before_all": lambda ctx: [root.addHandler(UserHandler(h)) for h in case["handlers"]],
-        "before_scenario": lambda ctx, sc: checks.append(["before_scenario", sys.stdout is real_out, sys.stderr is real_err] + state()),
         "after_scenario": lambda ctx, sc: checks.append(["after_scenario", sys.stdout is real_out, sys.stderr is real_err]),
         "after_feature": lambda ctx, f: checks.append(["after_feature", sys.stdout is real_out, sys.stderr is real_err] + state()),
         "before_step": lambda ctx, st: emit("bs%s" % st.name.split()[-1]),
     }
+
+    def before_scenario(ctx, sc):
+        checks.append(["before_scenario", sys.stdout is real_out, sys.stderr is real_err] + state())
+        if int(sc.name[1:]) in case.get("bad_before", []):
+            raise RuntimeError("before_scenario hook fails")
+    hooks["before_scenario"] = before_scenario
 
     def after_step(ctx, st):
         emit("as%s" % st.name.split()[-1])
@@ -336,6 +341,7 @@ def impl_run(case):
         sys.stdout, sys.stderr = real_out, real_err
         config = Configuration(args, load_config=False)
         config.reporters = []
+        config.junit = bool(case.get("junit"))       # with JUnit reporting on, every scenario keeps its captured output
         feature = parse_feature("\n".join(lines) + "\n", filename="x.feature")
         runner = ModelRunner(config, [feature], step_registry=registry)
         runner.hooks = hooks
@@ -356,7 +362,9 @@ def impl_run(case):
             steps.append({"scenario": si, "name": st.name, "status": st.status.name, "error_message": st.error_message or ""})
     return {"real_out": real_out.getvalue(), "real_err": real_err.getvalue(), "seen": seen, "checks": checks,
             "final": final, "steps": steps, "formatter": fmt_stream.getvalue(), "crashed": crashed,
-            "scenario_status": [sc.status.name for sc in feature.scenarios]}
+            "scenario_status": [sc.status.name for sc in feature.scenarios],
+            "scenario_captured": [[sc.captured.stdout or "", sc.captured.stderr or "", sc.captured.log_output or ""]
+                                  for sc in feature.scenarios]}
 
 
 def oracle_run(case, obs):
@@ -405,6 +413,19 @@ def oracle_run(case, obs):
                 foreign = [g for g in got if g not in expected]
                 sig = "report-foreign-output" if foreign else "report-contents"
                 out.append(("failure report of step %s (%s) lists %s, expected %s" % (st["name"], ch, got, want), sig))
+    # 2b. what a scenario keeps as its captured output is its own output, nothing of other scenarios
+    for si, cap in enumerate(obs.get("scenario_captured", [])):
+        own = set()
+        for st in obs["steps"]:
+            if st["scenario"] == si:
+                n = st["name"].split()[-1]
+                own |= {"bs" + n, "step" + n, "as" + n}
+        for text, prefix in zip(cap, ("OUT-", "ERR-", "LOG-")):
+            foreign = [g for g in re.findall(prefix + r"(\w+)", text) if g not in own]
+            if foreign:
+                out.append(("scenario S%d (%s) keeps captured output %s of other scenarios" % (si, obs["scenario_status"][si], foreign[:3]),
+                            "scenario-captured-foreign-output"))
+                break
     # 3. output of passing scenarios is not shown by the formatter
     for si, status in enumerate(obs["scenario_status"]):
         if status == "passed":
@@ -437,7 +458,9 @@ def suites(tier, seed):
         for _ in range(40 if thorough else 9):
             scen = [rnd.choice(seqs) for _ in range(rnd.randint(1, 3))]
             runs.append({"switches": {"out": sw[0], "err": sw[1], "log": sw[2]}, "clear": rnd.random() < 0.6,
-                         "handlers": rnd.choice([[1], [1, 2], [1, 2, 3]]), "scenarios": scen})
+                         "handlers": rnd.choice([[1], [1, 2], [1, 2, 3]]), "scenarios": scen,
+                         "junit": rnd.random() < 0.5,
+                         "bad_before": [i for i in range(len(scen)) if rnd.random() < 0.25]})
     return [
         {"name": "controller", "cases": ctl, "impl": impl_controller, "oracle": oracle_controller,
          "nontrivial": lambda c, o: any(any(r) for rep in o["reports"] for r in rep),
